@@ -510,17 +510,24 @@ def util_record_info(idx, fname):
     params, var = params_of(fd, drop=("tree_sequence", "ts"))
     calls = [n for n in ast.walk(fd) if isinstance(n, ast.Call) and dotted(n.func) == "provenance.record_provenance"]
     if len(calls) != 1:
-        return dict(params=params, var=var, command=None, recorded=[], n_calls=len(calls))
+        return dict(params=params, var=var, command=None, recorded=[], n_calls=len(calls), records_var=False)
     c = calls[0]
     cmd = c.args[1].value if len(c.args) > 1 and isinstance(c.args[1], ast.Constant) else None
     rec = []
+    records_var = False
     for k in c.keywords:
-        if k.arg in (None, "start_time"):
+        if k.arg is None:
+            # `**kwargs` of the function itself handed on to the record
+            if not (isinstance(k.value, ast.Name) and fd.args.kwarg is not None and k.value.id == fd.args.kwarg.arg):
+                raise TranslateError(f"{fname}: recorded **{ast.unparse(k.value)} is not the function's own **kwargs")
+            records_var = True
+            continue
+        if k.arg == "start_time":
             continue
         if not (isinstance(k.value, ast.Name)):
             raise TranslateError(f"{fname}: recorded value {ast.unparse(k)} outside the subset")
         rec.append((k.arg, k.value.id))
-    return dict(params=params, var=var, command=cmd, recorded=rec, n_calls=1)
+    return dict(params=params, var=var, command=cmd, recorded=rec, n_calls=1, records_var=records_var)
 
 
 def provenance_fn_info(idx):
@@ -533,8 +540,15 @@ def provenance_fn_info(idx):
     ok = ("parameters = dict(kwargs)" in src and "parameters['command'] = command" in src
           and "'parameters': parameters" in src)
     addrows = [n for n in ast.walk(rp) if isinstance(n, ast.Call) and (dotted(n.func) or "").endswith("provenances.add_row")]
-    ok2 = len(addrows) == 1 and "json.dumps(record)" in ast.unparse(addrows[0])
-    return dict(dict_shape_ok=ok, single_add_row=ok2)
+    txt = ast.unparse(addrows[0]) if addrows else ""
+    ok2 = len(addrows) == 1 and ("record=json.dumps(record)" in txt or "record=json.dumps(record, default=" in txt)
+    # a `default=` hook makes json.dumps total on numpy scalars/arrays (obj.tolist())
+    hook = None
+    m = [n for n in ast.walk(rp) if isinstance(n, ast.Call) and dotted(n.func) == "json.dumps"]
+    if m and kw_of(m[0], "default") is not None and isinstance(kw_of(m[0], "default"), ast.Name):
+        hfd = idx.funcs.get(("provenance", kw_of(m[0], "default").id))
+        hook = hfd is not None and "tolist()" in ast.unparse(hfd)
+    return dict(dict_shape_ok=ok, single_add_row=ok2, numpy_hook=bool(hook))
 
 
 # ----------------------------------------------------------------------------- emission
@@ -576,6 +590,8 @@ def render():
     L.append("`record_provenance` performs exactly one `tables.provenances.add_row(record=json.dumps(record))` -/")
     L.append(f"def provenanceDictShapeOk : Bool := {'true' if pf['dict_shape_ok'] else 'false'}")
     L.append(f"def singleAddRow : Bool := {'true' if pf['single_add_row'] else 'false'}")
+    L.append("/-- `json.dumps(record, default=<hook>)` with a hook that maps objects having `tolist()` to plain values -/")
+    L.append(f"def jsonNumpyHook : Bool := {'true' if pf['numpy_hook'] else 'false'}")
     L.append("")
     L.append("def sigDate : List String := " + llist(lstr(p) for p in date["params"]))
     L.append("def dateForwarded : List String := " + llist(lstr(p) for p in date["forwarded"]))
@@ -600,6 +616,7 @@ def render():
         L.append(f"def {nm}VarKw : Bool := {'true' if info['var'] else 'false'}")
         L.append(f"def {nm}Command : String := {lstr(info['command'] or '')}")
         L.append(f"def {nm}Recorded : List (String × String) := " + llist(f"({lstr(k)}, {lstr(v)})" for k, v in info["recorded"]))
+        L.append(f"def {nm}RecordsVarKw : Bool := {'true' if info['records_var'] else 'false'}")
         L.append("")
     L.append("/-- (entry, number of static call chains reaching a `provenance.record_provenance(...)` call, any inside a loop) -/")
     L.append("def recordChains : List (String × Nat × Bool) := " + llist(
